@@ -272,9 +272,11 @@ class ByteInterval(Node):
             size=proto_interval.size,
             contents=proto_interval.contents,
             uuid=uuid,
-            blocks=(decode_block(b) for b in proto_interval.blocks),
         )
+        # Register the interval before its blocks are decoded, so that a block
+        # carrying the interval's own UUID is rejected like any other clash.
         result._add_to_uuid_cache(ir._local_uuid_cache)
+        result.blocks.update(decode_block(b) for b in proto_interval.blocks)
         # We store the interval and IR here so we can use it later, when
         # _decode_symbolic_expressions is called.
         result._proto_interval = proto_interval
